@@ -34,17 +34,24 @@ Qed.
 Theorem C15_empty_cache_is_sound : forall cpf maxl, cache_ok cpf maxl cempty.
 Proof. exact cache_ok_empty. Qed.
 
-(* no-replay requirement: once the level has been restored, a later quit
-   outside a Markov level followed by a resume must not restore it again.
-   It holds iff the code removes guessing_info/omen_guess_number. *)
-Theorem C15_no_replay : omen_number_cleared = true -> forall cfg n s,
-  fst (sess_restore omen_number_cleared (sess_quit (snd (sess_restore omen_number_cleared cfg)) false n s)) = None.
+(* no-replay requirement: once the restored level has run to its end (including
+   a quit flag raised during its exhausting next_guess call, omen_exit false),
+   a later save followed by a resume must not restore it again.  It holds iff
+   the code removes guessing_info/omen_guess_number unless omen_exit is set. *)
+Theorem C15_no_replay : omen_number_cleared = true -> forall cfg n s oe,
+  fst (sess_restore omen_number_cleared
+         (sess_quit (snd (sess_restore omen_number_cleared cfg false)) false n s) oe) = None.
 Proof. intros ->. exact no_replay_when_cleared. Qed.
 
-(* R7: as coded the option is never removed and the stale .omn is restored again *)
-Theorem C15_refuted_stale : omen_number_cleared = false -> forall n1 s1 n2 s2,
+Theorem C15_requit_inside_restores_new : omen_number_cleared = true -> forall n1 s1 n s oe,
   fst (sess_restore omen_number_cleared
-         (sess_quit (snd (sess_restore omen_number_cleared (sess_quit sess_empty true n1 s1))) false n2 s2)) = Some s1.
+         (sess_quit (snd (sess_restore omen_number_cleared (sess_quit sess_empty true n1 s1) true)) true n s) oe) = Some s.
+Proof. intros ->. exact requit_inside_restores_new. Qed.
+
+(* R7: as first coded the option was never removed and the stale .omn was restored again *)
+Theorem C15_refuted_stale : omen_number_cleared = false -> forall n1 s1 n2 s2 oe oe',
+  fst (sess_restore omen_number_cleared
+         (sess_quit (snd (sess_restore omen_number_cleared (sess_quit sess_empty true n1 s1) oe)) false n2 s2) oe') = Some s1.
 Proof. intros ->. exact stale_replay_when_not_cleared. Qed.
 
 (* R18: a quit seen inside the last pre-terminal of the run is never saved *)
